@@ -497,3 +497,30 @@ func mayReturn(info *types.Info) func(*ast.CallExpr) bool {
 }
 
 var _ = cfg.New
+
+// Dep returns a (transitively) imported package by path, with syntax and types (LoadAllSyntax), or nil.
+func (p *Prog) Dep(path string) *packages.Package {
+	seen := map[string]bool{}
+	var find func(pk *packages.Package) *packages.Package
+	find = func(pk *packages.Package) *packages.Package {
+		if pk == nil || seen[pk.PkgPath] {
+			return nil
+		}
+		seen[pk.PkgPath] = true
+		if pk.PkgPath == path {
+			return pk
+		}
+		for _, im := range pk.Imports {
+			if r := find(im); r != nil {
+				return r
+			}
+		}
+		return nil
+	}
+	for _, pk := range p.All {
+		if r := find(pk); r != nil {
+			return r
+		}
+	}
+	return nil
+}
